@@ -529,6 +529,50 @@ def is_const_attr(n):
         n.attr not in REBOUND[0]
 
 
+STABLE = [set()]       # attributes of self that no method reachable from the function being normalised rebinds
+
+
+def stable_attrs(cls_node, fn):
+    """self.<attr> that cannot be rebound by a self.method() call made from fn: none of the class's methods reachable from fn
+    through self-calls (fn itself excluded - its own stores are seen directly) stores the attribute."""
+    if cls_node is None:
+        return set()
+    methods = {f.name: f for f in cls_node.body if isinstance(f, ast.FunctionDef)}
+    def callees(f):
+        out = set()
+        for n in ast.walk(f):
+            if isinstance(n, ast.Attribute) and isinstance(n.value, ast.Name) and n.value.id in ("self", cls_node.name) and n.attr in methods:
+                out.add(n.attr)
+        return out
+    reach, todo = set(), list(callees(fn))
+    while todo:
+        m = todo.pop()
+        if m in reach:
+            continue
+        reach.add(m)
+        todo += list(callees(methods[m]))
+    unknown_bases = bool(cls_node.bases) and any(src(b) not in ("Algorithm", "ABC", "object", "P_node", "Partition") for b in cls_node.bases)
+    rebound = set()
+    for m in reach:
+        for n in ast.walk(methods[m]):
+            if isinstance(n, ast.Attribute) and isinstance(n.ctx, (ast.Store, ast.Del)) and isinstance(n.value, ast.Name) and n.value.id == "self":
+                rebound.add(n.attr)
+    # calls of inherited methods that are not defined in this class: be conservative
+    inherited_calls = False
+    for m in [fn] + [methods[x] for x in reach]:
+        for n in ast.walk(m):
+            if isinstance(n, ast.Call) and isinstance(n.func, ast.Attribute) and isinstance(n.func.value, ast.Name) and n.func.value.id == "self" \
+                    and n.func.attr not in methods:
+                inherited_calls = True
+    if inherited_calls and unknown_bases:
+        return set()
+    attrs = set()
+    for n in ast.walk(fn):
+        if isinstance(n, ast.Attribute) and isinstance(n.value, ast.Name) and n.value.id == "self":
+            attrs.add(n.attr)
+    return {a for a in attrs if a not in rebound and a not in methods}
+
+
 def reads(e):
     out = set()
     skip = set()
@@ -538,11 +582,28 @@ def reads(e):
         if is_const_attr(n):
             skip.add(id(n.value))
             continue
+        if isinstance(n, ast.Attribute) and isinstance(n.value, ast.Name) and n.value.id == "self" and n.attr in STABLE[0]:
+            out.add(src(n))
+            skip.add(id(n.value))
+            continue
         if isinstance(n, ast.Name):
             out.add(n.id)
         elif isinstance(n, ast.Attribute):
             try:
                 out.add(src(n))
+            except Exception:
+                pass
+        elif isinstance(n, ast.Subscript):
+            # an element read depends on the container's contents: changed by a store / mutator call through the same
+            # container expression (matched by text), by a call of an own method that (transitively) mutates that attribute's
+            # container, by tree growth (make_children / deepen, for any container - the layers and child lists grow), or by
+            # a call of an unknown plain function ('<heap>')
+            out.add("<heap>")
+            if not stable_index(n.slice):
+                out.add("<heap:TREE>")
+            try:
+                out.add(src(n.value))
+                out.add("<heap:%s>" % src(n.value))
             except Exception:
                 pass
         elif isinstance(n, ast.Call):
@@ -552,6 +613,22 @@ def reads(e):
             # the result of a getter depends on the object's state: represent by a pseudo-location
             out.add("<state>")
     return out
+
+
+def stable_index(sl):
+    """An index that keeps denoting the same element while the tree grows: the tree's lists (layers, layer table, child lists,
+    learner lists) are append-only (C03's R03-OWN / step rules), so a non-negative position is stable; positions counted from
+    the end (negative, len()-based) and slices are not."""
+    if isinstance(sl, ast.Slice):
+        return False
+    for x in ast.walk(sl):
+        if isinstance(x, ast.UnaryOp) and isinstance(x.op, ast.USub):
+            return False
+        if isinstance(x, ast.Constant) and isinstance(x.value, (int, float)) and x.value < 0:
+            return False
+        if isinstance(x, ast.Call):
+            return False
+    return True
 
 
 def collect_rebound(trees):
@@ -597,6 +674,7 @@ def writes_of(stmt):
                 continue
             out.add("<state>")
             if isinstance(n.func, ast.Attribute):
+                m = n.func.attr
                 b = n.func.value
                 while isinstance(b, ast.Subscript):
                     b = b.value
@@ -604,7 +682,125 @@ def writes_of(stmt):
                     out.add(src(b))
                 except Exception:
                     pass
+                if m in TREE_GROWERS:
+                    out.add("<heap:TREE>")
+                if m in CONTAINER_MUTATORS:
+                    try:
+                        out.add("<heap:%s>" % src(n.func.value))
+                    except Exception:
+                        pass
+                if isinstance(n.func.value, ast.Name) and n.func.value.id == "self":
+                    attrs, grows = CONTAINER_WRITES[0].get(m, (None, True))
+                    if grows:
+                        out.add("<heap:TREE>")
+                    if attrs is None:
+                        out.add("<heap>")           # inherited / unknown own method
+                    else:
+                        for a in attrs:
+                            out.add("<heap:self.%s>" % a)
+            else:
+                out.add("<heap>")
+                out.add("<heap:TREE>")
     return out
+
+
+TREE_GROWERS = {"make_children", "deepen", "expand", "update_children"}
+CONTAINER_MUTATORS = {"append", "extend", "insert", "pop", "remove", "sort", "reverse", "clear", "update", "setdefault", "popitem", "add", "discard"}
+CONTAINER_WRITES = [{}]     # own method name -> (attributes whose containers it may mutate, may grow the tree), transitive over self-calls
+
+
+def container_writes(cls_node):
+    methods = {f.name: f for f in cls_node.body if isinstance(f, ast.FunctionDef)}
+    direct = {}
+    calls = {}
+    for name, f in methods.items():
+        attrs, grows, cs = set(), False, set()
+        for n in ast.walk(f):
+            if isinstance(n, ast.Subscript) and isinstance(n.ctx, (ast.Store, ast.Del)):
+                b = n.value
+                while isinstance(b, ast.Subscript):
+                    b = b.value
+                if isinstance(b, ast.Attribute) and isinstance(b.value, ast.Name) and b.value.id == "self":
+                    attrs.add(b.attr)
+            if isinstance(n, ast.Call) and isinstance(n.func, ast.Attribute):
+                m = n.func.attr
+                if m in TREE_GROWERS:
+                    grows = True
+                r = n.func.value
+                while isinstance(r, ast.Subscript):
+                    r = r.value
+                if m in CONTAINER_MUTATORS and isinstance(r, ast.Attribute) and isinstance(r.value, ast.Name) and r.value.id == "self":
+                    attrs.add(r.attr)
+                if isinstance(n.func.value, ast.Name) and n.func.value.id == "self":
+                    cs.add(m)
+        direct[name] = (attrs, grows)
+        calls[name] = cs
+    out = {}
+    for name in methods:
+        seen, todo = set(), [name]
+        attrs, grows = set(), False
+        unknown = False
+        while todo:
+            m = todo.pop()
+            if m in seen:
+                continue
+            seen.add(m)
+            if m not in methods:
+                unknown = True
+                continue
+            attrs |= direct[m][0]
+            grows |= direct[m][1]
+            todo += list(calls[m])
+        out[name] = (None if unknown else attrs, grows or unknown)
+    return out
+
+
+def _mentions_name(t, name):
+    return any(isinstance(n, ast.Name) and n.id == name for n in ast.walk(t))
+
+
+def _uses_safe(stmts, name, deps):
+    """Every use of `name` in the statement list is evaluated before anything the list does can change `deps`."""
+    idxs = [k for k, t in enumerate(stmts) if _mentions_name(t, name)]
+    if not idxs:
+        return True
+    last = idxs[-1]
+    for k, t in enumerate(stmts[:last + 1]):
+        if not (writes_of(t) & deps):
+            continue        # nothing here touches the inputs (re-evaluation of a pure expression inside a loop is harmless)
+        if k < last:
+            return False
+        return _last_use_safe(t, name, deps)
+    return True
+
+
+def _last_use_safe(t, name, deps):
+    if isinstance(t, ast.If):
+        if writes_of(ast.Expr(value=t.test)) & deps:
+            return False
+        return _uses_safe(t.body, name, deps) and _uses_safe(t.orelse, name, deps)
+    if isinstance(t, ast.For):
+        inside_head = {id(x) for x in ast.walk(t.iter)}
+        uses_t = [x for x in ast.walk(t) if isinstance(x, ast.Name) and x.id == name]
+        return bool(uses_t) and all(id(x) in inside_head for x in uses_t) and not (writes_of(ast.Expr(value=t.iter)) & deps)
+    if isinstance(t, (ast.Assign, ast.AugAssign, ast.Return, ast.Expr)):
+        # every use is evaluated before the write takes effect: the right-hand side of an assignment, or the arguments of
+        # the statement's single state-changing call
+        impure = [x for x in ast.walk(t) if isinstance(x, ast.Call) and "<state>" in writes_of(ast.Expr(value=x))]
+        if not impure:
+            if isinstance(t, (ast.Assign, ast.AugAssign)):
+                tg = t.targets if isinstance(t, ast.Assign) else [t.target]
+                if any(_mentions_name(x, name) for x in tg):
+                    return False        # used inside the store target (index): evaluated after the value, still before the store
+            return True
+        if len(impure) == 1:
+            inside_args = set()
+            for a in list(impure[0].args) + [k.value for k in impure[0].keywords]:
+                for x in ast.walk(a):
+                    inside_args.add(id(x))
+            uses_t = [x for x in ast.walk(t) if isinstance(x, ast.Name) and x.id == name]
+            return bool(uses_t) and all(id(x) in inside_args for x in uses_t)
+    return False
 
 
 def substitute_new_temps(fn, known_locals):
@@ -631,37 +827,7 @@ def substitute_new_temps(fn, known_locals):
                     later = stmts[i + 1:]
                     inside = [n for t in later for n in ast.walk(t) if isinstance(n, ast.Name) and n.id == name and isinstance(n.ctx, ast.Load)]
                     if uses_elsewhere and len(inside) == len(uses_elsewhere):
-                        ok = True
-                        last_use_idx = max(k for k, t in enumerate(later) if any(isinstance(n, ast.Name) and n.id == name for n in ast.walk(t)))
-                        for t in later[:last_use_idx + 1]:
-                            w = writes_of(t)
-                            uses_here = any(isinstance(n, ast.Name) and n.id == name for n in ast.walk(t))
-                            if w & deps:
-                                # a write to an input: allowed only in the last using statement when that statement is simple
-                                # and every use is evaluated before the write takes effect: the right-hand side of an
-                                # assignment, or the arguments of the statement's single state-changing call
-                                if t is later[last_use_idx] and isinstance(t, (ast.If, ast.For)):
-                                    # every use inside the condition / the iterable, which is evaluated once, before the body runs
-                                    head = t.test if isinstance(t, ast.If) else t.iter
-                                    inside_head = {id(x) for x in ast.walk(head)}
-                                    uses_t = [x for x in ast.walk(t) if isinstance(x, ast.Name) and x.id == name]
-                                    if uses_t and all(id(x) in inside_head for x in uses_t) and not (writes_of(ast.Expr(value=head)) & deps):
-                                        continue
-                                if t is later[last_use_idx] and isinstance(t, (ast.Assign, ast.AugAssign, ast.Return, ast.Expr)):
-                                    impure = [x for x in ast.walk(t) if isinstance(x, ast.Call) and "<state>" in writes_of(ast.Expr(value=x))]
-                                    if not impure:
-                                        continue
-                                    if len(impure) == 1:
-                                        inside_args = set()
-                                        for a in list(impure[0].args) + [k.value for k in impure[0].keywords]:
-                                            for x in ast.walk(a):
-                                                inside_args.add(id(x))
-                                        uses_t = [x for x in ast.walk(t) if isinstance(x, ast.Name) and x.id == name]
-                                        if uses_t and all(id(x) in inside_args for x in uses_t):
-                                            continue
-                                ok = False
-                                break
-                            # loops re-evaluate: substituting into a loop body changes how often it is evaluated (pure: fine)
+                        ok = _uses_safe(later, name, deps)
                         if ok:
                             val = s.value
 
@@ -843,6 +1009,114 @@ def rename_result_temps(fn):
     return k
 
 
+def expand_return_ifexp(fn):
+    """`return A if c else B` -> `if c: return A` / `else: return B`."""
+    k = 0
+    for b in _blocks(fn):
+        i = 0
+        while i < len(b):
+            s = b[i]
+            if isinstance(s, ast.Return) and isinstance(s.value, ast.IfExp):
+                v = s.value
+                new = ast.If(test=v.test, body=[ast.Return(value=v.body)], orelse=[ast.Return(value=v.orelse)])
+                ast.copy_location(new, s)
+                ast.fix_missing_locations(new)
+                b[i] = new
+                k += 1
+                continue        # re-examine: nested conditional expressions
+            i += 1
+    return k
+
+
+def unroll_literal_loops(fn, limit=8):
+    """`for a, b in ((1, x), (2, y)): BODY` over a literal tuple/list of at most `limit` elements whose loop variables are not
+    assigned in BODY and not used after the loop, without break/continue: BODY is repeated with the elements substituted."""
+    k = 0
+    for b in _blocks(fn):
+        i = 0
+        while i < len(b):
+            s = b[i]
+            if isinstance(s, ast.For) and not s.orelse and isinstance(s.iter, (ast.Tuple, ast.List)) and 0 < len(s.iter.elts) <= limit and \
+                    not any(isinstance(x, (ast.Break, ast.Continue)) for t in s.body for x in ast.walk(t)):
+                tg = s.target
+                names = [tg.id] if isinstance(tg, ast.Name) else ([e.id for e in tg.elts] if isinstance(tg, (ast.Tuple, ast.List)) and
+                                                                  all(isinstance(e, ast.Name) for e in tg.elts) else None)
+                ok = names is not None
+                if ok and not isinstance(tg, ast.Name):
+                    ok = all(isinstance(e, (ast.Tuple, ast.List)) and len(e.elts) == len(names) for e in s.iter.elts)
+                if ok:
+                    ok = not any(isinstance(x, ast.Name) and x.id in names and isinstance(x.ctx, (ast.Store, ast.Del)) for t in s.body for x in ast.walk(t))
+                    ok = ok and all(simple_arg(v) for e in s.iter.elts for v in ([e] if isinstance(tg, ast.Name) else e.elts))
+                    loop_ids = {id(x) for x in ast.walk(s)}
+                    ok = ok and not any(isinstance(x, ast.Name) and x.id in names and id(x) not in loop_ids for x in ast.walk(fn))
+                    # the substituted expressions must not be affected by the body (they are re-read at every use)
+                    if ok:
+                        deps = set()
+                        for e in s.iter.elts:
+                            deps |= reads(e)
+                        ok = not any(writes_of(t) & deps for t in s.body)
+                if ok:
+                    new = []
+                    for e in s.iter.elts:
+                        vals = [e] if isinstance(tg, ast.Name) else list(e.elts)
+                        rn = _Rename({}, dict(zip(names, vals)))
+                        for t in s.body:
+                            c = rn.visit(copy.deepcopy(t))
+                            ast.fix_missing_locations(c)
+                            new.append(c)
+                    b[i:i + 1] = new
+                    k += 1
+                    continue
+            i += 1
+    return k
+
+
+def module_constants(tree):
+    """Module-level names assigned exactly once, at module level, from an expression built from literals and np./math. calls:
+    name -> value AST."""
+    out = {}
+    counts = {}
+    for n in ast.walk(tree):
+        if isinstance(n, ast.Name) and isinstance(n.ctx, (ast.Store, ast.Del)):
+            counts[n.id] = counts.get(n.id, 0) + 1
+        if isinstance(n, (ast.Global, ast.Nonlocal)):
+            for x in n.names:
+                counts[x] = counts.get(x, 0) + 10
+    for s in tree.body:
+        if isinstance(s, ast.Assign) and len(s.targets) == 1 and isinstance(s.targets[0], ast.Name) and counts.get(s.targets[0].id) == 1:
+            v = s.value
+            names = [x.id for x in ast.walk(v) if isinstance(x, ast.Name)]
+            if pure_expr(v) and all(x in ("np", "numpy", "math") for x in names) and \
+                    any(isinstance(x, (ast.Constant,)) and isinstance(x.value, (int, float)) for x in ast.walk(v)) and \
+                    not any(isinstance(x, ast.Constant) and isinstance(x.value, str) for x in ast.walk(v)):
+                out[s.targets[0].id] = v
+    return out
+
+
+def substitute_module_constants(tree, consts):
+    k = 0
+    if not consts:
+        return 0
+    for fn in [n for n in ast.walk(tree) if isinstance(n, ast.FunctionDef)]:
+        shadow = local_names(fn)
+
+        class Sub(ast.NodeTransformer):
+            def visit_Name(self, n):
+                nonlocal k
+                if isinstance(n.ctx, ast.Load) and n.id in consts and n.id not in shadow:
+                    k += 1
+                    return ast.copy_location(copy.deepcopy(consts[n.id]), n)
+                return n
+
+            def visit_FunctionDef(self, n):
+                if n is fn:
+                    return self.generic_visit(n)
+                return n
+        Sub().visit(fn)
+        ast.fix_missing_locations(fn)
+    return k
+
+
 REBOUND_SITES = [None]     # attr -> set of "Class.method" that rebind self.<attr>
 
 
@@ -1017,6 +1291,9 @@ def normalize_tree(file, tree, vocab):
         for node in [tree] + [c for c in tree.body if isinstance(c, ast.ClassDef)]:
             node.body = [f for f in node.body if not (isinstance(f, ast.FunctionDef) and f.name in names and f.name not in called)]
     v = vocab.get(file, {"classes": {}, "functions": {}})
+    mc = substitute_module_constants(tree, module_constants(tree))
+    if mc:
+        log.append("%d use(s) of module-level numeric constants replaced by their definitions" % mc)
     for node in tree.body:
         fns = []
         if isinstance(node, ast.ClassDef):
@@ -1027,7 +1304,10 @@ def normalize_tree(file, tree, vocab):
         elif isinstance(node, ast.FunctionDef):
             fns.append((None, node, set(v["functions"].get(node.name, [])) if node.name in v["functions"] else None))
         for cname, f, known in fns:
+            STABLE[0] = stable_attrs(node if isinstance(node, ast.ClassDef) else None, f)
+            CONTAINER_WRITES[0] = container_writes(node) if isinstance(node, ast.ClassDef) else {}
             t0 = split_tuple_assigns(f)
+            t0 += expand_return_ifexp(f) + unroll_literal_loops(f)
             t0 += fold_none_tests(f, cname)
             t0 += coalesce_copies(f)
             t0 += rename_result_temps(f)
